@@ -5,15 +5,18 @@ From DS Require Import Gen.Constants Base.Bytes Base.Hash Base.HexId Base.FS Mod
      Proofs.LocalStoreProofs Proofs.PruneProofs.
 Import ListNotations.
 
-(* Below, [prune_gen true] is LocalStore.Prune (= [prune]) and [prune_gen false] is SFTPStore.Prune
+(* [stop] places a cancellation of the context anywhere in the run (the callback for that path finds
+   ctx.Done() closed and returns Interrupted{}); the theorems hold for every [stop], so "nil => complete"
+   also covers cancelled runs: a cancelled Prune either got through or does not return nil.
+   Below, [prune_gen true] is LocalStore.Prune (= [prune]) and [prune_gen false] is SFTPStore.Prune
    (= [sftp_prune]: the same walk callback without the temp-file rule).
 
    prune_safe: whatever Prune returns (nil, ChunkMissing, an I/O error, even an exhausted recursion
    budget), for every path of the tree: it is as before, or it existed and is gone and then it is a
    ".tmp-cacnk*" name (local stores only) or the canonical own-format name of an id outside the keep-set.
    So referenced chunks, chunks of the other format, junk files and directories are untouched. *)
-Theorem C16_prune_safe : forall (tmp_rule : bool) (st : store) (keep : id -> bool) fuel bstr s0 s' e,
-  prune_gen tmp_rule fuel st bstr keep s0 = (s', e) ->
+Theorem C16_prune_safe : forall (tmp_rule : bool) (stop : path -> bool) (st : store) (keep : id -> bool) fuel bstr s0 s' e,
+  prune_gen tmp_rule stop fuel st bstr keep s0 = (s', e) ->
   forall q, stat q s' = stat q s0 \/
             (stat q s' = None /\ stat q s0 <> None /\
              ((tmp_rule = true /\ has_prefix (last q []) tmpChunkPrefix_bytes = true) \/
@@ -26,9 +29,9 @@ Print Assumptions C16_prune_safe.
 
 (* prune_complete: result nil => no canonical own-format chunk FILE with id outside keep remains, and
    (local stores) no temp-named FILE remains anywhere below the base. *)
-Theorem C16_prune_complete : forall (tmp_rule : bool) (st : store) (keep : id -> bool) fuel bstr s0 s',
+Theorem C16_prune_complete : forall (tmp_rule : bool) (stop : path -> bool) (st : store) (keep : id -> bool) fuel bstr s0 s',
   is_dir (stat (st_base st) s0) = true ->
-  prune_gen tmp_rule fuel st bstr keep s0 = (s', None) ->
+  prune_gen tmp_rule stop fuel st bstr keep s0 = (s', None) ->
   (forall i en, wf_id i -> keep i = false ->
      stat (snd (name_from_id st i)) s' = Some en -> is_dir (Some en) = true) /\
   (tmp_rule = true ->
@@ -40,21 +43,21 @@ Print Assumptions C16_prune_complete.
 (* prune_stray_name_errors: a (non-temp) file below the base whose base name parses (own format) to an id
    outside keep, while nothing exists at that id's canonical path (chunk name in a wrong directory,
    upper-case hex name), makes Prune return non-nil. *)
-Theorem C16_prune_stray_name_errors : forall (tmp_rule : bool) (st : store) (keep : id -> bool) fuel bstr s0 t en i,
+Theorem C16_prune_stray_name_errors : forall (tmp_rule : bool) (stop : path -> bool) (st : store) (keep : id -> bool) fuel bstr s0 t en i,
   is_dir (stat (st_base st) s0) = true ->
   stat (st_base st ++ t) s0 = Some en -> is_dir (Some en) = false ->
   (tmp_rule = true -> has_prefix (last (st_base st ++ t) []) tmpChunkPrefix_bytes = false) ->
   base_file_id (st_unc st) (last (st_base st ++ t) []) = Some i -> keep i = false ->
   stat (snd (name_from_id st i)) s0 = None ->
-  snd (prune_gen tmp_rule fuel st bstr keep s0) <> None.
+  snd (prune_gen tmp_rule stop fuel st bstr keep s0) <> None.
 Proof. exact prune_stray_errors. Qed.
 Print Assumptions C16_prune_stray_name_errors.
 
 (* The recursion budget of the walk model is not a restriction: above the depth of the tree below the
    base it never runs out (the oracle runs with 64; real stores have depth 2). *)
-Theorem C16_prune_fuel_suffices : forall (tmp_rule : bool) (st : store) (keep : id -> bool) fuel bstr s0,
+Theorem C16_prune_fuel_suffices : forall (tmp_rule : bool) (stop : path -> bool) (st : store) (keep : id -> bool) fuel bstr s0,
   (forall q en, stat (st_base st ++ q) s0 = Some en -> length q < fuel) ->
-  snd (prune_gen tmp_rule fuel st bstr keep s0) <> Some WeFuel.
+  snd (prune_gen tmp_rule stop fuel st bstr keep s0) <> Some WeFuel.
 Proof. exact prune_fuel_suffices. Qed.
 Print Assumptions C16_prune_fuel_suffices.
 
@@ -72,15 +75,18 @@ Print Assumptions C16_filter_is_on_base_name.
      NewChunkFromStorage (both directions),
    - without repair the tree is unchanged; with repair every path is as before or is the removed
      canonical path of a reported id, and every reported chunk file is removed,
+   (a chunk whose canonical file is a symbolic link is outside this theorem: Stat/Open follow the link, see
+   the model's probe_f; the harness compares model and code on such stores)
    - every canonical own-format chunk file that is not reported holds an object whose data can be produced
      and hashes to the id in its name (the all-zero id included). *)
 Theorem C16_verify_exact : forall (H : bytes -> id) (zdecomp : bytes -> option bytes) (st : store)
   fuel bstr repair s0 s' msgs,
   is_dir (stat (st_base st) s0) = true ->
+  (forall i, not_link (probe (snd (name_from_id st i)) s0)) ->      (* no chunk is kept as a symbolic link *)
   verify H zdecomp fuel st bstr repair s0 = (s', msgs, None) ->
   (forall i, In i (reported msgs) ->
      wf_id i /\ (exists sum, get_chunk H zdecomp (verifying st) i s0 = GetInvalid sum) /\
-     exists en, stat (snd (name_from_id st i)) s0 = Some en /\ is_dir (Some en) = false) /\
+     exists m b, stat (snd (name_from_id st i)) s0 = Some (EFile m b)) /\
   (forall i en, wf_id i -> stat (snd (name_from_id st i)) s0 = Some en -> is_dir (Some en) = false ->
      (exists sum, get_chunk H zdecomp (verifying st) i s0 = GetInvalid sum) -> In i (reported msgs)) /\
   (repair = false -> s' = s0) /\
@@ -119,7 +125,7 @@ Print Assumptions C16_verify_skip_verify_reports_nothing_prefix_refuted.
 Theorem C16_verify_order_irrelevant : forall (H : bytes -> id) (zdecomp : bytes -> option bytes) (st : store)
   repair ids ids' s s1 m1 s2 m2,
   Permutation ids ids' -> Forall wf_id ids ->
-  (forall i, In i ids -> exists en, stat (snd (name_from_id st i)) s = Some en /\ is_dir (Some en) = false) ->
+  (forall i, In i ids -> exists m b, stat (snd (name_from_id st i)) s = Some (EFile m b)) ->
   verify_all H zdecomp st repair ids s = (s1, m1) -> verify_all H zdecomp st repair ids' s = (s2, m2) ->
   (forall j, In j (reported m1) <-> In j (reported m2)) /\ (forall q, stat q s1 = stat q s2).
 Proof. exact verify_all_perm. Qed.
@@ -144,8 +150,8 @@ Print Assumptions C16_zero_id_accepts_undecodable_prefix_refuted.
 
 (* SFTPStore.Prune since 9329890 removes over the connection the walk holds: for every pool size the
    model never waits for a connection ... *)
-Theorem C16_prune_never_blocks : forall (tmp_rule : bool) (st : store) (keep : id -> bool) fuel bstr s0,
-  snd (prune_gen tmp_rule fuel st bstr keep s0) <> Some WeBlocked.
+Theorem C16_prune_never_blocks : forall (tmp_rule : bool) (stop : path -> bool) (st : store) (keep : id -> bool) fuel bstr s0,
+  snd (prune_gen tmp_rule stop fuel st bstr keep s0) <> Some WeBlocked.
 Proof. exact prune_never_blocks. Qed.
 Print Assumptions C16_prune_never_blocks.
 
@@ -261,3 +267,27 @@ Example C16_example_skip_verify_store :
   reported (snd (fst (verify ex_H ex_zdecomp default_fuel st [115]%N false ex_tree))) = [7%N] /\
   reported (snd (fst (verify_raw ex_H ex_zdecomp default_fuel st [115]%N false ex_tree))) = [].
 Proof. vm_compute. split; reflexivity. Qed.
+
+(* S3Store.Prune with a cancellation anywhere in the listing: if it does not return Interrupted it has done
+   what the uninterrupted prune does -- so nil implies complete (C16_s3_prune_complete) also when the
+   context is cancelled under way.  (Seeded mutant C16-11 ended the loop normally on cancellation.) *)
+Theorem C16_s3_prune_cancelled : forall (stop : bytes -> bool) prefix unc (keep : id -> bool) bucket b',
+  s3_prune_c stop prefix unc keep bucket = (b', false) -> b' = s3_prune prefix unc keep bucket.
+Proof. exact s3_prune_c_nil. Qed.
+Print Assumptions C16_s3_prune_cancelled.
+
+(* a chunk kept as a symbolic link: local Prune removes the link, and only the link *)
+Example C16_example_symlinked_chunk :
+  let lnk := [46; 46; 47; 111]%N in      (* "../o" *)
+  let t := Dir meta0 [([115]%N, Dir meta0 [(d0, Dir meta0 [(nm6 ++ ext_of false, Symlink meta0 lnk)]);
+                                           ([111]%N, File meta0 [40; 181; 1; 2; 3]%N)])] in
+  let '(s', e) := prune default_fuel ex_st [115]%N (fun _ => false) t in
+  e = None /\ stat [[115]%N; d0; nm6 ++ ext_of false] s' = None /\
+  stat [[115]%N; [111]%N] s' = Some (EFile meta0 [40; 181; 1; 2; 3]%N) /\
+  get_chunk ex_H ex_zdecomp ex_st 6%N t = GetOk [40; 181; 1; 2; 3]%N.
+Proof. vm_compute. repeat split; reflexivity. Qed.
+
+(* cancellation placed at the first chunk file: Interrupted, nothing removed *)
+Example C16_example_prune_cancelled :
+  prune_gen true (fun p => Nat.eqb (length p) 3) default_fuel ex_st [115]%N ex_keep ex_tree = (ex_tree, Some WeInterrupted).
+Proof. vm_compute. reflexivity. Qed.
